@@ -164,8 +164,34 @@ CLAIMED.update({
     },
 })
 
+CLAIMED.update({
+    "C01": {
+        "text": "The five passes are modelled function by function with hash-map order as an input. Proved (three-valued, every "
+                "document): coalesce_exact_alt, rewrite_exact (under the one assumption H_strip about the regex library; fix D4), "
+                "shake0_exact_alt (for every fuel, outside the known classes D13/D14), optimise_coalesce_rewrite_exact_alt (whole "
+                "rules, the four switch sets without shake/matrix), exact_implies_verdict; the known classes are refuted on the "
+                "model (refuted_D13/D14/D16, D17 and D22 in C12). NOT proved: preservation by shake_1 and matrix; for these the model "
+                "is tied to the crate by the correspondence check (random and forced rules x 6 documents x all 16 switch sets, ALL "
+                "hash orders enumerated in the model) and every crate-side verdict change must be reproduced by the model AND accepted "
+                "by the executable classifier of a listed finding (D13..D21, Model/Known.v), else it is a VIOLATION.",
+        "note": TB + "PARTIAL proof: shake_1 / matrix preservation unproved. The theorems carry shape hypotheses (no_nested, cmp_leaves, sh0, shx, no_dneg) that loader-produced rules satisfy; the statements without them were refuted by the proof attempt (counterexamples kept). Known findings D13-D21 are listed in KNOWN_FINDINGS.txt with witnesses.",
+        "technique": "Coq proof for coalesce/rewrite/shake_0 + refutation witnesses; executable optimiser model with explicit hash order, differential over 16 switch sets with classifier-gated known findings",
+    },
+    "C08": {
+        "text": "quantified_list_exact proves that all(k) / of(k, n) over a list of string patterns gives, on a string field, the "
+                "quantifier's table over the members AS WRITTEN (documented meaning of each member) for every list length, pattern "
+                "mix, threshold and batching shape, outside the known class D10/D11 (two or more batches one of which holds several "
+                "members), which is refuted by witnesses; quantified_list_missing, plain_list_is_of_one and "
+                "quantified_identifier_exact cover the absent field, plain lists and all(X)/of(X,n). On the crate every quantified "
+                "form (key lists of strings, numbers, booleans, mappings; identifier forms) for lengths 1..4-5 and thresholds "
+                "0..len+1 is compared with the same rule written as explicit and/or/not over one-member identifiers.",
+        "note": TB + "Theorems are for string members on scalar string fields; numeric/boolean/mapping members and the identifier forms are covered by the explicit-expansion differential. Known findings D10, D11, D24 listed; D26 (array-valued fields) is outside C08's scalar-field quantifier and belongs to C02.",
+        "technique": "Coq proof (counting invariant over the parser's list partition) + quantified-vs-explicit differential on the crate",
+    },
+})
+
 DEFAULT_REASON = ("not claimed yet in this commit: the Coq model covers it (DESIGN.md section 7) but its property theorems "
                   "and correspondence check are still being built; nothing is inapplicable in principle")
-NOT_YET = {}
+NOT_YET = {"C02": "not claimed in this commit: the reference semantics of whole rules (Spec) and its refinement theorem are not finished; the parts of C02 that are finished are claimed as C05 (condition grammar), C06 (connectives), C07 (string predicates), C08 (list quantifiers), C09 (numeric predicates and casts), C10 (paths and nested blocks) -- each against an independent reference; machine-checked proof applies to C02 in principle (DESIGN.md 7-C02)"}
 NOTES = ("All checks share one Coq development (/verif/coq) and one correspondence pipeline; see DESIGN.md. "
          "KNOWN_FINDINGS.txt lists repaired defects (fix: commits in /repo) and known findings.")
